@@ -110,6 +110,8 @@ class ModuleValidator:
                 new_sub_module = sub_module_fixer(sub_module, **kwargs)
                 # move new_sub_module to the same device as that of sub_module
                 new_sub_module.to(next(sub_module.parameters()).device)
+                # keep the replacement in the mode (train / eval) of the layer it replaces
+                new_sub_module.train(sub_module.training)
                 # get module after replacement.
                 module = cls._replace_sub_module(
                     root=module,
